@@ -73,10 +73,11 @@ class NonIntegral(Exception):
 
 def make_system(geo):
     lat = np.eye(3)
-    syst = wb.system.System_R.from_sparse(real_lattice=lat, wannier_centers_red=np.zeros((1, 3)),
-                                          matrices={'Ham': {(0, 0, 0): {(0, 0): 1.0}, (1, 0, 0): {(0, 0): 0.5}, (-1, 0, 0): {(0, 0): 0.5}}})
-    syst.periodic = np.array([True, geo.D == 2, False])
-    syst.set_pointgroup(GROUPS[geo.group]["gens"])
+    with quiet():
+        syst = wb.system.System_R.from_sparse(real_lattice=lat, wannier_centers_red=np.zeros((1, 3)),
+                                              matrices={'Ham': {(0, 0, 0): {(0, 0): 1.0}, (1, 0, 0): {(0, 0): 0.5}, (-1, 0, 0): {(0, 0): 0.5}}})
+        syst.periodic = np.array([True, geo.D == 2, False])
+        syst.set_pointgroup(GROUPS[geo.group]["gens"])
     return syst
 
 
